@@ -404,6 +404,63 @@ func guardedCalls(p *pkg, fd *ast.FuncDecl, callee, cond string) []bool {
 	return res
 }
 
+// assignedFrom lists the left-hand sides of assignments in fd whose right-hand
+// side is a call to one of the given constructors.
+func assignedFrom(p *pkg, fd *ast.FuncDecl, ctors ...string) []string {
+	var res []string
+	if fd == nil {
+		return res
+	}
+	ast.Inspect(fd.Body, func(n ast.Node) bool {
+		as, ok := n.(*ast.AssignStmt)
+		if !ok || len(as.Lhs) != 1 || len(as.Rhs) != 1 {
+			return true
+		}
+		ce, ok := as.Rhs[0].(*ast.CallExpr)
+		if !ok {
+			return true
+		}
+		fn := exprStr(p.fset, ce.Fun)
+		for _, c := range ctors {
+			if fn == c {
+				res = append(res, exprStr(p.fset, as.Lhs[0]))
+			}
+		}
+		return true
+	})
+	return res
+}
+
+// firstArgs lists the first argument (as text) of every call of callee in fd.
+func firstArgs(p *pkg, fd *ast.FuncDecl, callee string) []string {
+	var res []string
+	if fd == nil {
+		return res
+	}
+	ast.Inspect(fd.Body, func(n ast.Node) bool {
+		if ce, ok := n.(*ast.CallExpr); ok && exprStr(p.fset, ce.Fun) == callee && len(ce.Args) > 0 {
+			res = append(res, exprStr(p.fset, ce.Args[0]))
+		}
+		return true
+	})
+	return res
+}
+
+// goStmts lists the functions started with `go` in fd.
+func goStmts(p *pkg, fd *ast.FuncDecl) []string {
+	var res []string
+	if fd == nil {
+		return res
+	}
+	ast.Inspect(fd.Body, func(n ast.Node) bool {
+		if gs, ok := n.(*ast.GoStmt); ok {
+			res = append(res, exprStr(p.fset, gs.Call.Fun))
+		}
+		return true
+	})
+	return res
+}
+
 func leanBoolList(l []bool) string {
 	q := make([]string, len(l))
 	for i, b := range l {
@@ -506,6 +563,25 @@ func main() {
 		leanStrList(calls(g, g.anyFunc("IntervalAwareForceTicker", "Stop"))))
 	o.f("def calls_tickerResetWithInterval : List String := %s\n",
 		leanStrList(calls(g, g.anyFunc("IntervalAwareForceTicker", "ResetWithInterval"))))
+	o.f("def created_start : List String := %s\n", leanStrList(assignedFrom(g,
+		g.anyFunc("GoBackNConn", "start"), "NewIntervalAwareForceTicker", "time.NewTicker")))
+	var stopped []string
+	for _, c := range calls(g, g.anyFunc("GoBackNConn", "Close")) {
+		if strings.HasSuffix(c, ".Stop") {
+			stopped = append(stopped, strings.TrimSuffix(c, ".Stop"))
+		}
+	}
+	o.f("def stopped_Close : List String := %s\n", leanStrList(stopped))
+	o.f("def ctxarg_recvFromStream : List String := %s\n", leanStrList(firstArgs(g,
+		g.anyFunc("GoBackNConn", "receivePacketsForever"), "g.cfg.recvFromStream")))
+	o.f("def ctxarg_sendPacket_recvLoop : List String := %s\n", leanStrList(firstArgs(g,
+		g.anyFunc("GoBackNConn", "receivePacketsForever"), "g.sendPacket")))
+	o.f("def ctxarg_sendPacket_sendLoop : List String := %s\n", leanStrList(firstArgs(g,
+		g.anyFunc("GoBackNConn", "sendPacketsForever"), "g.sendPacket")))
+	o.f("def go_start : List String := %s\n", leanStrList(goStmts(g, g.anyFunc("GoBackNConn", "start"))))
+	o.f("def go_syncerProcessACK : List String := %s\n", leanStrList(goStmts(g, g.anyFunc("syncer", "processACK"))))
+	o.f("def calls_queueResend : List String := %s\n", leanStrList(calls(g, g.anyFunc("queue", "resend"))))
+	o.f("def calls_queueStop : List String := %s\n", leanStrList(calls(g, g.anyFunc("queue", "stop"))))
 	o.f("def guarded_pongReset : List Bool := %s\n", leanBoolList(guardedCalls(g,
 		g.anyFunc("GoBackNConn", "sendPacketsForever"), "g.pongTicker.Reset", "!g.pongTicker.IsActive()")))
 	o.f("def lock_tickerResetWithInterval : String := %s\n",
